@@ -183,6 +183,94 @@ def classes_of(vs):
     return out
 
 
+# ---------------------------------------------------------------------- derived columns with unchecked cells
+# `col @ fnc` / functional.map_(fnc, col) store what fnc returns WITHOUT the type check of an assignment: a MixedColumn
+# obtained that way holds NumPy integer / float scalars, bools, Fractions ... next to plain cells.  Such a column is a
+# legitimate sort key (ops.sort(dm, by=dm.x @ np.abs)); its cells are judged as the numbers they stand for.
+INCLUDE_PENDING_FINDINGS = False
+# Pending (unchanged tree, reported to the coordinator; such cases are generated but NOT judged while the flag is off):
+#  * a NaN carried by a number type that is not a `float` subclass (np.float32('nan'), np.float16, Decimal('nan')):
+#    _sortable_regular tests `isinstance(val, float) and math.isnan(val)`, so float(val) = nan is used as a plain key
+#    and the order of everything compared with it is arbitrary (nan is not put last);
+#  * integer scalars that are not `int` (np.int64, np.uint64, Fraction, Decimal) beyond 2**53: they are compared
+#    through float(val), i.e. rounded, so 2**53 + 1 and 2**53 are tied instead of ordered by value.
+
+
+def _num(f):
+    """apply f to the numeric cells (int / float incl. NaN and inf), pass text and None on"""
+    return lambda v: f(v) if type(v) in (int, float) else v
+
+
+def _fraction(v):
+    from fractions import Fraction
+    return Fraction(v) if v == v and abs(v) != INF else v
+
+
+MAPS = {
+    # NumPy functions: ints give np.int64, floats np.float64 (a `float` subclass)
+    'npabs': _num(np.abs), 'npsign': _num(np.sign), 'npneg': _num(np.negative), 'npsquare': _num(np.square),
+    'npfloor': _num(np.floor), 'nprint': _num(np.rint),
+    # explicit scalar types
+    'npint64': lambda v: np.int64(v) if type(v) is int and abs(v) < 2 ** 62 else v,
+    'npint16': lambda v: np.int16(v) if type(v) is int and abs(v) < 2 ** 15 else v,
+    'npf32': lambda v: np.float32(v) if type(v) is float and v == v and float(np.float32(v)) == v else v,
+    'npf64': lambda v: np.float64(v) if type(v) is float or (type(v) is int and abs(v) <= 2 ** 53) else v,
+    # predicates: bool / np.bool_ cells
+    'gt0': _num(lambda v: v > 0), 'npgt0': _num(lambda v: np.greater(v, 0)),
+    # exact rationals
+    'fraction': _num(_fraction),
+    # plain results (control): halves of ints are floats, labels are text no number parser accepts
+    'half': _num(lambda v: v / 2), 'ident': lambda v: v, 'label': lambda v: 'n%r' % (v,),
+}
+
+
+NPFNS = ['npabs', 'npsign', 'npneg', 'npsquare', 'npfloor', 'nprint', 'npint64']
+
+
+def raw_cells(col):
+    seq = col._seq
+    return list(seq) if isinstance(seq, list) else list(col)
+
+
+def standin(x):
+    """the plain value an unchecked cell stands for: (value, None), or (None, why) when the cell is outside what is
+    judged (text a number parser accepts cannot be stored by assignment; the two pending findings above)"""
+    from fractions import Fraction
+    t = type(x)
+    if x is None or t in (int, float):
+        return x, None
+    if t is str:
+        try:
+            float(x)
+            return None, 'numeric-looking text'
+        except ValueError:
+            return x, None
+    if t is bool or isinstance(x, np.bool_):
+        return int(x), None
+    if isinstance(x, (np.integer, Fraction)):
+        if isinstance(x, Fraction) and x.denominator != 1:
+            f = float(x)
+            if Fraction(f) != x:
+                return None, 'a fraction that is no float'
+            return f, None
+        i = int(x)
+        if abs(i) > 2 ** 53 and not INCLUDE_PENDING_FINDINGS:
+            return None, 'pending: non-int integer beyond 2**53'
+        return i, None
+    if isinstance(x, np.floating):
+        f = float(x)
+        if f == f and f != x:
+            return None, 'a float wider than binary64'
+        if f != f and not isinstance(x, float) and not INCLUDE_PENDING_FINDINGS:
+            return None, 'pending: NaN carried by a non-float type'
+        return f, None
+    return None, 'cell of type %s' % t.__name__
+
+
+class Unjudged(Exception):
+    pass
+
+
 class C10:
     id = 'C10'
     props_file = 'theories/Props/C10.v'
@@ -212,7 +300,14 @@ class C10:
             'grown IN PLACE (new rows default or written), then sorted / bin-split; '
             '(f) tables carrying one or two SeriesColumns (depth 0..4, also re-depthed) read as pseudo-columns s# (depth) '
             'and s#j (sample j): sort(dm, by), sort(series, by=col) also detached, bin_split, and sort / use / sort '
-            'histories -- every result row must hold the series cell of the same source row. '
+            'histories -- every result row must hold the series cell of the same source row; '
+            '(g) sort keys that are DERIVED columns with unchecked cells: `dm.a @ f` / functional.map_(f, dm.a) (results are '
+            'stored without the type check of an assignment) used directly as ops.sort(col), ops.sort(dm, by=col), '
+            'ops.sort(other, by=col), bin_split(col, n), also detached again and inside sort / use / write / sort '
+            'histories; f = NumPy functions (np.int64 next to np.float64 cells from a column of whole and fractional '
+            'numbers), NumPy scalar types of other widths, predicates (bool / np.bool_), Fractions, plain controls; the '
+            'cells are judged as the numbers they stand for (L0) and, classified as they are, by the regenerated '
+            'sortable() kernel (L1, m_order_x). '
             'A case is non-trivial when the result order differs from the input order, ties exist, or ValueError '
             'is raised; distinct by full input.')
     trusted_base = [
@@ -229,7 +324,11 @@ class C10:
     ]
     assumptions = [
         'fastnumbers is not installed (checked at run time): _sortable_regular is the live variant',
-        'cells are in the normal form of their column type (C05): no bool / numeric-looking text in a MixedColumn',
+        'cells of columns that belong to a table are in the normal form of their column type (C05); the unchecked cells '
+        'of a mapped column (family g) are judged as the numbers they stand for: bool / np.bool_ as 0 / 1, NumPy integer '
+        'and float scalars and dyadic Fractions by value; NOT judged: text a number parser accepts (cannot be stored by '
+        'assignment), and the two pending findings named in harness/c10.py (NaN carried by a non-float type, non-int '
+        'integers beyond 2**53)',
         'bin_split: len(dm) * bins < 2^53 so that int(a/b) is the exact floor (translator assumption)',
         'the id-based _getrowidkey of numeric columns (argsort + searchsorted) is modelled as lookup by id',
         'bins <= 0 is outside the property (no chunk is produced) and is not generated',
@@ -275,6 +374,32 @@ class C10:
                     if 0 <= i < len(dm):
                         del dm[i]
         return dm
+
+    # ------------------------------------------------------------------ derived columns (unchecked cells)
+    def derived(self, dm, name, mp, ids):
+        """dm[name] mapped with MAPS[mp['fn']] through `@` or functional.map_ -> (column, kind, stand-in values, raw cells).
+        Raises Unjudged when the mapping itself fails or gives cells outside what is judged (mapping is C19's subject)."""
+        from datamatrix import functional as fnc
+        f = MAPS[mp['fn']]
+        try:
+            col = fnc.map_(f, dm[name]) if mp.get('via') == 'map_' else dm[name] @ f
+        except Exception as e:              # noqa: BLE001
+            raise Unjudged('mapping raised %r' % (e,))
+        if is_series(col) or kindof(col) is None or [int(i) for i in col._rowid] != ids or col._datamatrix is not dm:
+            raise Unjudged('the mapped column is no plain column of the table')
+        raw = raw_cells(col)
+        vals = []
+        for x in raw:
+            v, why = standin(x)
+            if why:
+                raise Unjudged(why)
+            vals.append(v)
+        return col, kindof(col), vals, raw
+
+    @staticmethod
+    def x_order(byraw, ids, rids):
+        """L1 on the unchecked cells themselves: sorted() over the regenerated sortable() keys of the classified cells"""
+        return '(m_order_x %s %s %s)' % (L.lst(pyobs.pyv(x) for x in byraw), ids_lit(ids), ids_lit(rids))
 
     # ------------------------------------------------------------------ one step on the live table
     def step(self, dm, st):
@@ -342,9 +467,21 @@ class C10:
                 fails.append('(%s on this table raised %r)' % (op, e))
             out['pyfail'] = '; '.join(fails)
             return out
+        mp = st.get('map')
+        if mp:
+            out['tags'] += ['mapped', 'map:' + mp['fn']]
+        byraw = None
         if op == 'sort_dm':
             byk, _, byv = colmap[st['by']]
-            res = ops.sort(dm, by=dm[st['by']])
+            bycol = dm[st['by']]
+            if mp:
+                try:
+                    bycol, byk, byv, byraw = self.derived(dm, st['by'], mp, ids)
+                except Unjudged as e:
+                    out['observed'] = 'not judged: %s' % e
+                    out['tags'].append('map-unjudged')
+                    return out
+            res = ops.sort(dm, by=bycol)
             post = snap(dm)
             rs = snap(res)
             rids, rcols = rs
@@ -362,6 +499,8 @@ class C10:
                     ids_lit(ids), L.lst(vals_lit(v) for _, _, _, v in cols), vals_lit(byv),
                     ids_lit(rids), L.lst(vals_lit(v) for _, _, _, v in rcols))
                 out['model'] = '(m_sort_dm %s %s %s)' % (mdm_lit(pre), mcol_lit(byk, ids, byv), mdm_lit(rs))
+                if byraw is not None and byk == 'KMixed':
+                    out['model'] = '(%s && %s)' % (out['model'], self.x_order(byraw, ids, rids))
             out['observed'] = {'row_ids': rids, 'by': [pyobs.jsonable(x) for x in dict((n, v) for n, _, _, v in rcols).get(st['by'], [])]}
             out['nontrivial'] = rids != ids or len(set(map(doc_key_safe, byv))) < len(byv)
         elif op == 'sort_col':
@@ -372,6 +511,23 @@ class C10:
             byname = st.get('by') or st['obj']
             byk, _, byv = colmap[byname]
             key = st.get('key')
+            ocol, bcol = dm[st['obj']], (dm[st['by']] if st.get('by') else None)
+            otypes = None
+            if mp:
+                # the object column, the by column, or (sort(col): one and the same) both are derived by a mapping
+                try:
+                    if mp.get('on', 'obj') == 'obj' or not st.get('by'):
+                        ocol, ok_, ov_, oraw = self.derived(dm, st['obj'], mp, ids)
+                        oparts = [(st['obj'], ok_, list(ids), ov_)]
+                        otypes = [type(x).__name__ for x in oraw]
+                        if not st.get('by'):
+                            byk, byv, byraw = ok_, ov_, oraw
+                    else:
+                        bcol, byk, byv, byraw = self.derived(dm, st['by'], mp, ids)
+                except Unjudged as e:
+                    out['observed'] = 'not judged: %s' % e
+                    out['tags'].append('map-unjudged')
+                    return out
             if key:
                 # a detached column: dm.col[::-1], dm.col[[i, j, ...]] (all rows in another order, or some), dm.col[a:b];
                 # it keeps pointing at the table it came from but has row ids (and an order) of its own
@@ -383,17 +539,30 @@ class C10:
                     kp, pykey = list(range(len(ids)))[key['slice'][0]:key['slice'][1]], slice(key['slice'][0], key['slice'][1])
                 oparts = [(n, k, [r[i] for i in kp], [v[i] for i in kp]) for n, k, r, v in oparts]
                 byv, ids = [byv[i] for i in kp], [ids[i] for i in kp]
+                if byraw is not None:
+                    byraw = [byraw[i] for i in kp]
+                if otypes is not None:
+                    otypes = [otypes[i] for i in kp]
                 if st.get('by'):
-                    res = ops.sort(dm[st['obj']][pykey], by=dm[st['by']][pykey])
+                    res = ops.sort(ocol[pykey], by=bcol[pykey])
                 else:
-                    res = ops.sort(dm[st['obj']][pykey])
+                    res = ops.sort(ocol[pykey])
                 out['tags'].append('detached')
             elif st.get('by'):
-                res = ops.sort(dm[st['obj']], by=dm[st['by']])
+                res = ops.sort(ocol, by=bcol)
             else:
-                res = ops.sort(dm[st['obj']])
+                res = ops.sort(ocol)
             post = snap(dm)
-            rparts = col_entries(st['obj'], res)
+            if otypes is not None:
+                # the result holds the unchecked cells of the mapped column: read them as what they stand for; that
+                # every cell also kept its type is checked along the witness below
+                rraw = raw_cells(res)
+                rst = [standin(x) for x in rraw]
+                rparts = [(st['obj'], kindof(res), [int(i) for i in res._rowid],
+                           [v if why is None else Bad('%s (%r)' % (why, x)) for (v, why), x in zip(rst, rraw)])]
+                rtypes = [type(x).__name__ for x in rraw]
+            else:
+                rparts = col_entries(st['obj'], res)
             rrid = rparts[0][2]
             if [(n, k) for n, k, _, _ in rparts] != [(n, k) for n, k, _, _ in oparts]:
                 fails.append('result column type / depth %r, source %r' % ([(n, k) for n, k, _, _ in rparts],
@@ -405,7 +574,7 @@ class C10:
                     fails.append('len(result) != number of values')
             # position-aligned: can be assigned back to (a copy of) the DataMatrix
             try:
-                if not key and not fails:
+                if not key and not fails and otypes is None:
                     d2 = dm[:]
                     d2['zz_sorted'] = res
                     back = col_entries(st['obj'], d2['zz_sorted'])
@@ -415,7 +584,12 @@ class C10:
             except Exception as e:          # noqa: BLE001
                 fails.append('sorted column cannot be assigned back: %r' % (e,))
             if not fails:
-                p = find_witness(byv, row_keys(oparts), row_keys(rparts))
+                okeys, rkeys = row_keys(oparts), row_keys(rparts)
+                if otypes is not None:
+                    okeys, rkeys = list(zip(okeys, otypes)), list(zip(rkeys, rtypes))
+                p = find_witness(byv, okeys, rkeys)
+                if p is None and otypes is not None and find_witness(byv, row_keys(oparts), row_keys(rparts)) is not None:
+                    fails.append('cells changed their type: source %r result %r' % (otypes, rtypes))
                 if p is None:
                     p = list(range(len(byv)))
                     out['tags'].append('no-witness')
@@ -425,6 +599,8 @@ class C10:
                 out['model'] = '(' + ' && '.join('(m_sort_col %s %s %s %s)' % (
                     mcol_lit(ok_, ids, ov), mcol_lit(byk, ids, byv), nats_lit(p), mcol_lit(ok_, rrid, rv))
                     for (_, ok_, _, ov), (_, _, _, rv) in zip(oparts, rparts)) + ')'
+                if byraw is not None and byk == 'KMixed' and 'no-witness' not in out['tags']:
+                    out['model'] = '(%s && %s)' % (out['model'], self.x_order(byraw, ids, [ids[i] for i in p]))
             if len(rparts) == 1:
                 out['observed'] = {'values': [pyobs.jsonable(x) for x in rparts[0][3]], 'row_ids': rrid}
             else:
@@ -435,8 +611,16 @@ class C10:
         elif op == 'bin_split':
             byk, _, byv = colmap[st['col']]
             bins = st['bins']
+            bycol = dm[st['col']]
+            if mp:
+                try:
+                    bycol, byk, byv, byraw = self.derived(dm, st['col'], mp, ids)
+                except Unjudged as e:
+                    out['observed'] = 'not judged: %s' % e
+                    out['tags'].append('map-unjudged')
+                    return out
             try:
-                chunks = list(ops.bin_split(dm[st['col']], bins))
+                chunks = list(ops.bin_split(bycol, bins))
                 obs = ('ok', chunks)
             except Exception as e:          # noqa: BLE001
                 obs = ('exn', pyobs.exn_name(e))
@@ -466,6 +650,8 @@ class C10:
             if not fails:
                 out['oracle'] = '(o_bin %s %s %s %s)' % (ids_lit(ids), vals_lit(byv), L.z(bins), lit)
                 out['model'] = '(m_bin %s %s %s)' % (ids_lit(ids), L.z(bins), lit)
+                if byraw is not None and byk == 'KMixed' and obs[0] == 'ok':
+                    out['model'] = '(%s && %s)' % (out['model'], self.x_order(byraw, ids, [i for c in crids for i in c]))
         else:
             raise AssertionError(op)
         if snap_key(post) != snap_key(pre):
@@ -725,7 +911,60 @@ class C10:
                                       'value': pyobs.enc(rng.choice([0.5, -1.0, NAN, 3.25]))})
                     steps.append(self.judged(rng, inp, m))
                 cases.append(self.rerun(dict(inp, steps=steps, tags=['history', 'series'])))
+        # (g) sort keys that are DERIVED columns with unchecked cells: `dm.a @ f` / functional.map_(f, dm.a) used directly
+        #     (never assigned, which would normalise the cells) as ops.sort(col), ops.sort(dm, by=col),
+        #     ops.sort(other, by=col), bin_split(col, n), also detached a second time (`(dm.a @ f)[::-1]`).  f: NumPy
+        #     functions (np.int64 next to np.float64 cells), explicit NumPy scalar types of other widths, predicates
+        #     (bool / np.bool_), Fractions, plain controls.  The cells are judged as the numbers they stand for.
+        fns = sorted(MAPS)
+        for kind in KINDS:
+            mixed = kind == 'KMixed'
+            for n in ([1, 2, 3, 4, 5, 6, 7, 8, 9, 11] if mixed else [2, 4, 6, 9]) + ([14, 20] if thorough else []):
+                for rep in range((6 if thorough else 3) if mixed else 1):
+                    inp = self.scenario_numeric(rng, kind, n, order_kind=(rep + n) % 5)
+                    m = self.built_length(inp)
+                    mp = lambda on='obj': {'fn': rng.choice(NPFNS if rng.random() < 0.5 else fns), 'on': on,
+                                           'via': rng.choice(['@', '@', 'map_'])}
+                    sts = [{'op': 'sort_dm', 'by': 'a', 'map': mp()}, {'op': 'sort_col', 'obj': 'a', 'map': mp()},
+                           {'op': 'sort_col', 'obj': 'o', 'by': 'a', 'map': mp('by')},
+                           {'op': 'sort_col', 'obj': 'a', 'by': rng.choice(['o', 't']), 'map': mp('obj')},
+                           {'op': 'bin_split', 'col': 'a', 'bins': rng.randint(1, max(1, m)), 'map': mp()}]
+                    if m >= 2:
+                        sts.append({'op': 'sort_col', 'obj': 'a', 'map': mp(), 'key': self.detach_key(rng, m)})
+                        sts.append({'op': 'sort_col', 'obj': 'o', 'by': 'a', 'map': mp('by'), 'key': self.detach_key(rng, m)})
+                    for st in sts:
+                        cases.append(self.rerun(dict(inp, steps=[st], tags=['derived-key'])))
+            for _ in range((20 if thorough else 6) if mixed else 2):
+                # the same inside a history: sort by a derived key / use / write / sort by a derived key
+                n = rng.randint(3, 8)
+                inp = self.scenario_numeric(rng, kind, n, order_kind=rng.choice([0, 2, 3, 4]))
+                m = self.built_length(inp)
+                if m < 2:
+                    continue
+                steps = []
+                for _k in range(rng.randint(2, 3)):
+                    st = dict(rng.choice([{'op': 'sort_dm', 'by': 'a'}, {'op': 'sort_col', 'obj': 'a'},
+                                          {'op': 'sort_col', 'obj': 'o', 'by': 'a'},
+                                          {'op': 'bin_split', 'col': 'a', 'bins': rng.randint(1, m)}]))
+                    if rng.random() < 0.8:
+                        st['map'] = {'fn': rng.choice(NPFNS if rng.random() < 0.5 else fns), 'on': 'by' if st.get('by') and st['op'] == 'sort_col' else 'obj',
+                                     'via': rng.choice(['@', 'map_'])}
+                    steps.append(st)
+                    steps.append(rng.choice([
+                        {'op': 'use', 'how': rng.choice(['shuffle_col', 'shuffle_dm', 'select', 'sort_by_other']),
+                         'col': rng.choice(['a', 'o']), 'seed': rng.randrange(1000)},
+                        {'op': 'write', 'col': 'a', 'idx': rng.randrange(m),
+                         'value': pyobs.enc(numeric_value(rng, kind))}]))
+                cases.append(self.rerun(dict(inp, steps=steps[:-1], tags=['history', 'derived-key'])))
         return cases
+
+    def scenario_numeric(self, rng, kind, n, order_kind):
+        """like scenario(), with a by-column `a` that holds mostly whole and fractional numbers (with ties, both signs)"""
+        inp = self.scenario(rng, kind, n, order_kind)
+        alpha = [numeric_value(rng, kind) for _ in range(max(2, rng.choice([n, n // 2 + 1, 3])))]
+        a = [rng.choice(alpha) if rng.random() < 0.8 else numeric_value(rng, kind) for _ in range(n)]
+        inp['cols'][0]['values'] = [pyobs.enc(v) for v in a]
+        return inp
 
     def judged(self, rng, inp, m):
         """one judged call on the live table of (current) length m"""
@@ -899,6 +1138,21 @@ def exotic_strings():
             '\u1e1b', 'A\u030a', '\u00c5', '\u212b', 'B', '\u1100\u1161', '\uac00', '\u1101', 'n\u0303o', '\u00f1o', 'nz',
             '\ufb01n', 'fin', '\u0301', '\u00df', 'ss', '\uff21', '\ud7ff', '\ue000', '\uffee', '\uffff', '\U00010000',
             '\U0001f600', '\U0001f600\ufe0f', '\u0131', 'I\u0307', '\u03a9', '\u2126', '\u00a0', ' ']
+
+
+def numeric_value(rng, kind):
+    """mostly whole and fractional numbers of both signs; now and then one of the other classes of the type"""
+    c = rng.random()
+    if kind == 'KInt':
+        return rng.randint(-6, 6) if c < 0.8 else rand_value(rng, kind)
+    if c < 0.4:
+        v = rng.randint(-6, 6)
+        return v if kind == 'KMixed' else float(v)
+    if c < 0.75:
+        return rng.randint(-12, 12) / rng.choice([2.0, 4.0, 8.0])
+    if c < 0.85:
+        return rng.choice([INF, -INF, NAN, 0.0, -0.0])
+    return rand_value(rng, kind)
 
 
 def rand_value(rng, kind):
